@@ -9,6 +9,48 @@ BASELINE_OFF = ("cd /repo && go build ./... && go test -mod=mod -json -vet=off -
 
 # id -> (technique, level text, level note, design ref)
 CLAIMS = {
+    "C01": (
+        "path-sensitive enumeration of every return of the request-body adapters' Read (named results and boolean phis resolved along the path, pure expressions canonicalised) for the provenance of io.EOF; dominance of sendBuffer() by a successful advanceToStage(stageSend); who-may-call the stage helpers; must-pass of the buffer reset",
+        "Very narrow claim at level 'other': three structural clauses of 'same count, nothing dropped or prefixed' (C01.1-C01.3). Field-for-field equality of message values across codecs/compressions is value semantics and is NOT decided by this family (see DESIGN.md, D12 is out of reach).",
+        "Trusts io.Reader/bytes.Buffer contracts. Everything about payload values is outside the claim.",
+        "DESIGN.md section 6, C01",
+    ),
+    "C08": (
+        "forward dataflow (typestate {zero, nonzero, unknown}) of the envelope cursor with branch refinement; must-pass of the cursor update after each envelope copy with the dominating length comparison it needs; offset/decrement shape of the writer-side accumulation",
+        "Narrow claim at level 'other': the structural preconditions for segmentation independence that the adapters' state machines rely on (C08.1-C08.2); equality of outputs over all split points is a schedule/value property and is not decided.",
+        "Trusts go/ssa dominators and the structural identification of the adapters (Read method + envelope array + cursor).",
+        "DESIGN.md section 6, C08",
+    ),
+    "C09": (
+        "path-sensitive provenance of the payload read's error, dominated reportError calls in both Close methods, constant folding of all envelope decoders/encoders over the 256 flag bytes, error-discipline check (non-nil edge never reaches the success continuation) at every codec/compression/framing call, missing-status witness",
+        "Decides that the code has no path turning truncated / malformed input into a clean end (C09.1-C09.5), for every call site rather than sampled cut points. Level 'other'; enumeration of byte offsets and hangs are not decided.",
+        "Trusts io.CopyN/ReadFull contracts and the accepted-idiom table in checker/vg/c09.go.",
+        "DESIGN.md section 6, C09",
+    ),
+    "C10": (
+        "limit vocabulary: origin tracing to the maxMsgBufferBytes field, dominating comparisons, one-level function-result and parameter summaries; enumeration of every reader->buffer copy, Grow and accumulating Write at request time; exact 'LimitReader(limit+1) then n > limit' idiom; resource_exhausted constant",
+        "Decides that no request-time path buffers wire or decompressed bytes without a limit-derived bound and that exceeding is detectable and reported as resource_exhausted (C10.1-C10.4). Level 'other'; the resident multiple of L and codec-internal allocation are not decided.",
+        "Trusts the enumeration of copy primitives (ReadFrom, io.Copy/CopyBuffer/CopyN/ReadAll, Buffer.Write in Write methods, Grow).",
+        "DESIGN.md section 6, C10",
+    ),
+    "C11": (
+        "interval proof of table indices; fixpoint over guards for method calls through nil-able collaborators (non-nil tests, dominating calls, correlated flags and sentinels, all-call-sites); enumeration of panic/assert/go constructs and call-graph cycles at request time; divisor analysis; who-may-call WriteHeader",
+        "Partial claim at level 'other': absence of the locally judgeable crash/wedge constructs (C11.1-C11.6). Totality over all inputs, termination and state-dependent slice bounds are NOT decided.",
+        "Trusts the collaborator identification ('x, _ = v.(I)' stores) and the list of bounded recursions in checker/vg/c11.go.",
+        "DESIGN.md section 6, C11",
+    ),
+    "C14": (
+        "pooled-buffer ownership typestate (no use / second release after Put, release-then-clear on every exit path, swap discipline by path enumeration), error-cell guard before touching buffer-aliasing fields, lock-before-fields and deferred unlock, lock-set comparison between reader-side and writer-side roots with a known-findings file",
+        "Structural necessary conditions of isolation and race freedom (C14.1-C14.3), decided for every path. The reader-side reportError race is a genuine defect recorded as known finding KF-1 (per cell and root); any other shared cell is reported. Level 'other'; interleaving semantics are not decided.",
+        "Trusts sync.Pool semantics; the reachability used for C14.3 relies on a separately checked invariant (responseWriter.delegate is the caller's writer).",
+        "DESIGN.md section 6, C14",
+    ),
+    "C16": (
+        "must-pass of the per-message flush after each completed message (path-sensitive in the re-framing writer), flusher lookup order by dominance of type assertions, table of endMustBeInHeaders implementers, path classification of WriteHeader (flushed vs. legitimately held back), unit-bounded reads of the client body, single-message invariant for un-enveloped bodies",
+        "Structural preconditions of message-by-message progress (C16.1-C16.5); liveness over a real HTTP/2 connection is not decided. Level 'other'.",
+        "Trusts http.Flusher contract.",
+        "DESIGN.md section 6, C16",
+    ),
     "C02": (
         "origin tracing of the request metadata and negotiated server cells, dominating membership facts, read=>delete pairing on header maps, constant folding of envelope encoders/decoders over all 256 flag bytes, origin equality between envelope length and payload bound, dominating limit checks for narrowing conversions",
         "Structural necessary conditions of 'the backend sees a valid request in a protocol/codec/compression it accepts', decided for every path and every call site (C02.1-C02.7). Level 'other': a rule set over the SSA form; values of headers and payload bytes are not decided.",
